@@ -22,3 +22,24 @@ print("| entry | property | scope | class | what fails |\n|---|---|---|---|---|"
 for e in sorted(ents, key=lambda e: e["id"]):
     if e["status"] == "open":
         print("| %s | %s | %s | `%s` | %s |" % (e["id"], e["property"], "witnesses (%d)" % len(e["witnesses"]) if e.get("witnesses") else "class", e["class"], e["title"].replace("|", "/")))
+
+# --- seeds table
+print()
+print("| seed | needs | caught by (class) | history |\n|---|---|---|---|")
+for p in sorted(glob.glob(os.path.join(V, "seeded", "*", "meta.json"))):
+    m = json.load(open(p))
+    v = m.get("verif", {})
+    sid = os.path.basename(os.path.dirname(p))
+    needs = (m.get("needs") or "").replace("|", "/").replace("\n", " ")
+    summ = (m.get("summary") or "").replace("|", "/").replace("\n", " ")
+    print("| %s | %s — needs: %s | %s: `%s` | %s |" % (sid, summ[:160], needs[:200], v.get("detected_by"), v.get("violation_class"), (v.get("history") or "").replace("|", "/")))
+
+# --- per-check table
+import importlib, sys
+sys.path.insert(0, V)
+print()
+print("| id | level | technique | quick bounds | thorough bounds |\n|---|---|---|---|---|")
+for pid in open(os.path.join(V, "claimed.txt")).read().split():
+    m = importlib.import_module("mc.checks." + pid)
+    b = getattr(m, "BOUNDS", {})
+    print("| %s | %s | %s | %s | %s |" % (pid, m.LEVEL, m.TECHNIQUE[:140], json.dumps(b.get("quick", {}))[:200], json.dumps(b.get("thorough", {}))[:200]))
